@@ -271,6 +271,29 @@ def b_lat_value(ch):
     return st
 
 
+def b_cellparam_card(ch):
+    """cell parameters that shape the geometry (U, FILL, LAT, TRCL) given on a data card instead of the cell cards:
+    MCNP accepts them, the converter does not read them - the run must say so instead of converting another
+    geometry"""
+    card = ch.choose('card', ['none', 'u 0 0 1 1', 'U 0 1R 1 1R', 'fill 1 0 0 0', '*fill 1 3j', 'lat 0 0 1 0',
+                              'trcl 0 0 7 0', '*trcl 0 0 7 0', 'trcl 2j 7 j'], free=True)
+    st = St('c17 cell parameters on data cards')
+    st.cells = ['1 0 -1 fill=1 imp:n=1', '2 0 1 imp:n=0', '11 1 -2.7 -2 u=1 imp:n=1', '12 0 2 u=1 imp:n=1']
+    st.surfs = ['1 so 5', '2 px 0']
+    st.data = ['m1 13027 1', 'tr7 1 0 0']
+    if card != 'none':
+        # the parameter the card gives is removed from the cell cards (giving it twice is an error for MCNP)
+        name = card.split()[0].lstrip('*').lower()
+        if name == 'u':
+            st.cells = [c.replace(' u=1', '') for c in st.cells]
+        elif name == 'fill':
+            st.cells = [c.replace(' fill=1', '') for c in st.cells]
+        st.data.append(card)
+    st.fault = None if card == 'none' else 'cell-parameter-data-card'
+    st.site = card.split()[0]
+    return st
+
+
 def b_importance(ch):
     ncells = 4
     fault = ch.choose('fault', ['none', 'imp:p-short', 'imp:p-long', 'imp:n-short-vs-p', 'three-cards',
@@ -333,6 +356,7 @@ def scenarios(tier):
         Scn('lattice', b_lattice, None, None, 'missing option, wrong cell, wrong dimensionality, array length'),
         Scn('lattice-arg', b_lattice_arg, None, None, 'malformed --lattice strings'),
         Scn('lat-value', b_lat_value, None, None, 'LAT values other than 1 and 2'),
+        Scn('cell-parameter-cards', b_cellparam_card, None, None, 'U / FILL / LAT / TRCL given on data cards'),
         Scn('importance', b_importance, None, None, 'IMP cards of unequal length'),
         Scn('fractions', b_fractions, None, None, 'mixed-sign material fractions'),
     ]
